@@ -121,6 +121,20 @@ func canonicals() []canonical {
 			}
 		}
 	}
+	// extended requests under the names of well-known extended operations (a server that knows an operation tends to look
+	// inside its value), each with a value that is absent, empty, not BER at all, a truncated or a complete sequence
+	for oi, oid := range []string{"1.3.6.1.4.1.4203.1.11.1", "1.3.6.1.1.8", "1.3.6.1.4.1.1466.20037", "1.3.6.1.4.1.4203.1.11.3", "1.3.6.1.1.21.1", "1.3.6.1.1.21.3", "1.3.6.1.4.1.1466.101.119.1", "1.3.6.1.1.17.1", "1.2.840.113556.1.4.1781"} {
+		for _, sv := range []struct {
+			shape string
+			val   []byte
+		}{{"novalue", nil}, {"empty", []byte{}}, {"garbage", []byte{0x1f}}, {"truncated-seq", []byte{0x30, 0x05, 0x04, 0x01}},
+			{"seq", sber.Seq(sber.Prim(sber.Context, 0, []byte("uid=x")), sber.Prim(sber.Context, 1, []byte("old"))).Encode()}, {"int", sber.Int(5).Encode()}} {
+			shape, val := sv.shape, sv.val
+			op := sber.ExtendedRequest([]byte(oid), val, val != nil)
+			msg := sber.Seq(sber.Int(int64(60+oi)), op)
+			out = append(out, canonical{Name: "extended+name:" + oid + "/" + shape, Tree: msg, Scope: []int{1}})
+		}
+	}
 	// long lists (well-formed): element counts around 8, 16 and 32 in every client-sized list. Only the message ID
 	// subtree is mutated (the shapes are covered by the short canonicals); what matters here is the count.
 	for _, n := range []int{8, 9, 16, 17, 33} {
